@@ -1,26 +1,16 @@
 //! C15 helpers: sfnt tables (head, hhea, maxp, hmtx, name, OS/2, post, cvt, loca, glyf, cmap).
 
 use super::*;
-use allsorts::binary::read::{ReadArray, ReadArrayCow, ReadBinaryDep, ReadScope, ReadUnchecked};
+use allsorts::binary::read::{ReadArrayCow, ReadScope};
 use allsorts::binary::write::{WriteBinary, WriteBinaryDep, WriteBuffer, WriteContext};
 use allsorts::binary::{I16Be, I32Be, I64Be, U16Be, U24Be, U32Be, I8, U8};
 use allsorts::error::{ParseError, WriteError};
-use allsorts::post::{Header as PostHeader, PascalString, PostTable, SubTable as PostSubTable};
-use allsorts::tables::cmap::owned as ocmap;
-use allsorts::tables::cmap::{Cmap, CmapSubtable, CmapSubtableFormat4, EncodingId, PlatformId, SequentialMapGroup};
-use allsorts::tables::glyf::{
-    BoundingBox, CompositeGlyph, CompositeGlyphArgument, CompositeGlyphComponent, CompositeGlyphFlag,
-    CompositeGlyphScale, EmptyGlyph, GlyfRecord, GlyfTable, Glyph, Point, SimpleGlyph, SimpleGlyphFlag,
-};
+use allsorts::tables::glyf::BoundingBox;
 use allsorts::tables::loca::{owned as oloca, LocaOffsets, LocaTable};
-use allsorts::tables::os2::{FsSelection, Os2, Version0, Version1, Version2to4, Version5};
-use allsorts::tables::owned as otables;
 use allsorts::tables::{
     CvtTable, F2Dot14, Fixed, HeadTable, HheaTable, HmtxTable, IndexToLocFormat, LangTagRecord, LongHorMetric,
-    MacStyle, MaxpTable, MaxpVersion1SubTable, NameRecord, NameTable, TableRecord,
+    MacStyle, MaxpTable, MaxpVersion1SubTable, NameRecord, TableRecord,
 };
-use std::borrow::Cow;
-use std::convert::TryFrom;
 
 /// parse (guarded) -> fingerprint -> serialise (guarded)
 pub fn mk_step<V>(
@@ -465,7 +455,7 @@ pub fn rt_cvt(cx: &mut Ctx, rng: &mut Rng) {
 }
 
 pub fn fp_loca(l: &LocaTable<'_>) -> Fp {
-    let v: Vec<u32> = l.offsets.iter().collect();
+    let v: Vec<u32> = (0..l.offsets.len()).filter_map(|i| l.offsets.get(i)).collect();
     let kind = match l.offsets {
         LocaOffsets::Short(_) => "Short",
         LocaOffsets::Long(_) => "Long",
